@@ -54,8 +54,9 @@ type ptask struct {
 }
 
 type pgroup struct {
-	Name string   `json:"name"`
-	C    []constr `json:"constraints,omitempty"`
+	Name    string      `json:"name"`
+	C       []constr    `json:"constraints,omitempty"`
+	Connect []*chanSpec `json:"connect,omitempty"` // inherited by every task of the group
 }
 
 type pscenario struct {
@@ -158,9 +159,21 @@ func bodyPlace(c *hk.Ctx, prop string) {
 	}
 	nTasks := 1 + c.W(4, "tasks")
 	for i := 0; i < nTasks; i++ {
-		t := &ptask{Role: fmt.Sprintf("t%d", i), Class: fmt.Sprintf("pc%d", i), Group: sc.Groups[c.W(nGroups, "task-group")].Name,
+		classIdx := i
+		if prop == "C05" && i > 0 && c.W(3, "share-class") == 2 {
+			classIdx = c.W(i, "shared-class") // several roles running the same task template
+		}
+		t := &ptask{Role: fmt.Sprintf("t%d", i), Class: fmt.Sprintf("pc%d", classIdx), Group: sc.Groups[c.W(nGroups, "task-group")].Name,
 			Cpu: []float64{0.1, 0.4, 1}[c.W(3, "want-cpu")], Mem: []float64{64, 256}[c.W(2, "want-mem")], Critical: true}
 		t.path = "wfp." + t.Group + "." + t.Role
+		if classIdx != i {
+			// same template: same wants, constraints and channels as the first user of the class
+			o := sc.Tasks[classIdx]
+			t.Cpu, t.Mem, t.Static, t.ClassC, t.Bind = o.Cpu, o.Mem, o.Static, o.ClassC, o.Bind
+			t.RoleC = drawC("role-c", 2)
+			sc.Tasks = append(sc.Tasks, t)
+			continue
+		}
 		if prop == "C05" {
 			t.ClassC = drawC("class-c", 1)
 			t.RoleC = drawC("role-c", 2)
@@ -226,6 +239,42 @@ func bodyPlace(c *hk.Ctx, prop string) {
 			}
 		}
 	}
+	// connect declarations at group level, inherited by the tasks below; a task may override the
+	// first of them by name, the others must still reach it
+	if prop == "C13" {
+		for _, g := range sc.Groups {
+			if c.W(3, "group-connect") != 2 {
+				continue
+			}
+			var cands []struct {
+				t *ptask
+				b *chanSpec
+			}
+			for _, o := range sc.Tasks {
+				if o.Group != g.Name {
+					for _, b := range o.Bind {
+						cands = append(cands, struct {
+							t *ptask
+							b *chanSpec
+						}{o, b})
+					}
+				}
+			}
+			if len(cands) == 0 {
+				continue
+			}
+			for k := 0; k < 2; k++ {
+				cd := cands[c.W(len(cands), "group-target")]
+				g.Connect = append(g.Connect, &chanSpec{Name: fmt.Sprintf("gout%d", k), Type: "push", Target: cd.t.path + ":" + cd.b.Name, targetRole: cd.t.Role, targetChan: cd.b.Name})
+			}
+			for _, t := range sc.Tasks {
+				if t.Group == g.Name && c.W(2, "override-inherited") == 1 {
+					cd := cands[c.W(len(cands), "override-target")]
+					t.Connect = append(t.Connect, &chanSpec{Name: "gout0", Type: "push", Target: cd.t.path + ":" + cd.b.Name, targetRole: cd.t.Role, targetChan: cd.b.Name})
+				}
+			}
+		}
+	}
 	// ---- reference: merged constraints (nearest definition of an attribute wins) ----
 	for _, t := range sc.Tasks {
 		t.merged = map[string]string{}
@@ -249,7 +298,7 @@ func bodyPlace(c *hk.Ctx, prop string) {
 	var wf strings.Builder
 	fmt.Fprintf(&wf, "name: wfp\ndefaults:\n  deploy_timeout: 15s\n%sroles:\n", yamlConstr("", sc.RootC))
 	for _, g := range sc.Groups {
-		fmt.Fprintf(&wf, "  - name: %s\n%s    roles:\n", g.Name, yamlConstr("    ", g.C))
+		fmt.Fprintf(&wf, "  - name: %s\n%s%s    roles:\n", g.Name, yamlConstr("    ", g.C), yamlChans("    ", "connect", g.Connect))
 		any := false
 		for _, t := range sc.Tasks {
 			if t.Group != g.Name {
@@ -257,6 +306,9 @@ func bodyPlace(c *hk.Ctx, prop string) {
 			}
 			any = true
 			fmt.Fprintf(&wf, "      - name: %s\n%s%s        task:\n          load: %s\n          critical: true\n", t.Role, yamlConstr("        ", t.RoleC), yamlChans("        ", "connect", t.Connect), t.Class)
+			if _, done := classes[t.Class]; done {
+				continue
+			}
 			var cl strings.Builder
 			fmt.Fprintf(&cl, "name: %s\ncontrol:\n  mode: fairmq\nwants:\n  cpu: %v\n  memory: %v\n", t.Class, t.Cpu, t.Mem)
 			if t.Static != "" {
@@ -297,11 +349,32 @@ func bodyPlace(c *hk.Ctx, prop string) {
 	for _, a := range s.mesos.Agents {
 		agentByID[a.ID] = a
 	}
+	// which role a launched task runs for: asked from the core itself (GetTask reports the role path)
+	roleOf := map[string]*ptask{}
+	for _, id := range s.mesos.TaskOrder {
+		if gt, gerr := ci.rpc.GetTask(context.Background(), &pb.GetTaskRequest{TaskId: id}); gerr == nil && gt != nil && gt.Task != nil {
+			for _, t := range sc.Tasks {
+				if gt.Task.TaskPath == t.path {
+					roleOf[id] = t
+				}
+			}
+		}
+	}
 	taskOf := func(st *simmesos.SimTask) *ptask {
+		if t := roleOf[st.ID]; t != nil {
+			return t
+		}
+		// not (or no longer) known to the core: attributable only if its template is used by one role
+		var cand *ptask
+		n := 0
 		for _, t := range sc.Tasks {
 			if strings.Contains(st.Class, "/"+t.Class+"@") || strings.HasSuffix(st.Class, "/"+t.Class) {
-				return t
+				cand = t
+				n++
 			}
+		}
+		if n == 1 {
+			return cand
 		}
 		return nil
 	}
@@ -457,8 +530,29 @@ func bodyPlace(c *hk.Ctx, prop string) {
 		if args == nil {
 			continue
 		}
-		for _, ch := range t.Connect {
+		eff := append([]*chanSpec(nil), t.Connect...)
+		for _, g := range sc.Groups {
+			if g.Name != t.Group {
+				continue
+			}
+			for _, gc := range g.Connect {
+				overridden := false
+				for _, own := range t.Connect {
+					if own.Name == gc.Name {
+						overridden = true
+					}
+				}
+				if !overridden {
+					eff = append(eff, gc)
+				}
+			}
+		}
+		for _, ch := range eff {
 			got := args["chans."+ch.Name+".0.address"]
+			if got == "" && !ch.explicit {
+				viol("C13", "outbound-address", "channel-missing", "task %s: outbound channel %s (target %s) is missing from the CONFIGURE arguments", t.Role, ch.Name, ch.Target)
+				continue
+			}
 			if ch.explicit {
 				if got != ch.Target {
 					viol("C13", "explicit-target", "altered", "task %s: explicit target %s was turned into %q", t.Role, ch.Target, got)
